@@ -220,16 +220,23 @@ func readAll(w *wal.WAL) (first, last uint64, entries []string, err error) {
 }
 
 type crashCtx struct {
-	segSize int
-	viols   []Violation
-	images  int
-	opens   int
-	dist    map[string]int
+	segSize            int
+	viols              []Violation
+	images             int
+	opens              int
+	dist               map[string]int
 	openWriterDirSyncs bool
 }
 
 func (c *crashCtx) add(p, what, detail string, replay []string) {
-	if len(c.viols) < 40 {
+	// capped per property: a flood of reports under one property must not hide another property's
+	n := 0
+	for _, v := range c.viols {
+		if v.Property == p {
+			n++
+		}
+	}
+	if n < 6 {
 		c.viols = append(c.viols, Violation{Property: p, What: what, Detail: detail, Ops: replay})
 	}
 }
@@ -350,9 +357,15 @@ func (c *crashCtx) cleanRestart(d *simfs.Disk, g *refLog, replay []string) {
 	c.opens++
 	if err != nil {
 		c.add("C03", "Open fails on the clean restart that follows a recovery", err.Error(), replay)
+		if len(g.entries) > 0 {
+			c.add("C01", "acknowledged entries are gone: Open fails on the clean restart that follows a recovery", err.Error(), replay)
+		}
 		return
 	}
-	defer w.Close()
+	defer func() {
+		w.Close()
+		c.truncateAllProbe(d, g, replay)
+	}()
 	first, last, entries, rerr := readAll(w)
 	if rerr != nil {
 		c.add("C01", "an acknowledged entry is unreadable after the clean restart that follows a recovery", rerr.Error(), replay)
@@ -363,6 +376,50 @@ func (c *crashCtx) cleanRestart(d *simfs.Disk, g *refLog, replay []string) {
 		c.add("C01", "the log differs from the acknowledged log after the clean restart that follows a recovery",
 			fmt.Sprintf("got first=%d last=%d n=%d; acknowledged first=%d last=%d n=%d", first, last, len(entries), g.firstIndex(), g.lastIndex(), len(g.entries)), replay)
 	}
+}
+
+// truncateAllProbe: the recovered log must also accept the other kind of write call — on a copy of the directory, delete
+// everything (what raft does after installing a snapshot), append again, restart
+func (c *crashCtx) truncateAllProbe(d *simfs.Disk, g *refLog, replay []string) {
+	if len(g.entries) == 0 || c.images%3 != 0 {
+		return
+	}
+	c.dist["truncate-all-probes"]++
+	dd := d.Clone()
+	replay = append(append([]string(nil), replay...), "then (on a copy): Open, DeleteRange(first,last), StoreLogs(last+1), Close, Open")
+	w, err := openWalOn(dd, c.segSize, nil)
+	c.opens++
+	if err != nil {
+		return // reported by the caller's own Open
+	}
+	defer func() {
+		if p := recover(); p != nil {
+			c.add("C03", "recovered WAL panics on use", fmt.Sprint(p), replay)
+		}
+	}()
+	first, last := g.firstIndex(), g.lastIndex()
+	if err := w.DeleteRange(first, last); err != nil {
+		c.add("C03", "recovered WAL refuses to delete the whole log", err.Error(), replay)
+		c.add("C04", "DeleteRange of the whole log fails on a recovered WAL", err.Error(), replay)
+		w.Close()
+		return
+	}
+	l := &raft.Log{Index: last + 1, Term: 12, Data: []byte("after-truncate-all")}
+	if err := w.StoreLogs([]*raft.Log{l}); err != nil {
+		c.add("C03", "recovered WAL refuses an append after deleting the whole log", err.Error(), replay)
+	}
+	w.DeleteRange(math.MaxUint64, math.MaxUint64)
+	w.Close()
+	w2, err := openWalOn(dd, c.segSize, nil)
+	c.opens++
+	if err != nil {
+		c.add("C03", "Open fails after the recovered WAL deleted its whole log and appended again", err.Error(), replay)
+		return
+	}
+	if f2, _ := w2.FirstIndex(); f2 != last+1 {
+		c.add("C04", "after deleting the whole log and appending, a restart does not come back with exactly the new entry", fmt.Sprintf("FirstIndex=%d want %d", f2, last+1), replay)
+	}
+	w2.Close()
 }
 
 // continuation: the recovered WAL must be fully usable (C03) and its new effects durable
@@ -537,6 +594,7 @@ func (c *crashCtx) exploreCrashes(start *simfs.Disk, base *refLog, ops []string,
 			img := tr.ProcessCrash()
 			c.dist["process-crash"]++
 			if w2, g2 := c.checkImage(img, adm, append(rp, "kind: process crash")); w2 != nil {
+				c.truncateAllProbe(img, g2, append(rp, "kind: process crash"))
 				ok := c.continuation(w2, img, g2, r, append(rp, "kind: process crash"))
 				w2.Close()
 				if ok {
@@ -557,6 +615,7 @@ func (c *crashCtx) exploreCrashes(start *simfs.Disk, base *refLog, ops []string,
 				c.dist["power-loss:"+ch.name]++
 				rp2 := append(rp, "kind: power loss, choice "+ch.name)
 				if w2, g2 := c.checkImage(img, adm, rp2); w2 != nil {
+					c.truncateAllProbe(img, g2, rp2)
 					ok := c.continuation(w2, img, g2, r, rp2)
 					w2.Close()
 					if ok {
@@ -707,6 +766,7 @@ func suiteCrash(seed uint64, tier string) *Report {
 	rep.Dist["open_writer_dirsyncs"] = map[bool]int{false: 0, true: 1}[simfs.OpenWriterDirSyncs]
 	shapes := map[string]bool{}
 	images := 0
+	perProp := map[string]int{}
 	var allCM []*cmCase
 	for _, rs := range results {
 		allCM = append(allCM, rs.cm...)
@@ -730,8 +790,13 @@ func suiteCrash(seed uint64, tier string) *Report {
 			rep.Dist[k] += v
 		}
 		images += rs.ctx.images
-		if len(rep.Violations) < 40 {
-			rep.Violations = append(rep.Violations, rs.ctx.viols...)
+		for _, v := range rs.ctx.viols {
+			if perProp[v.Property] < 8 {
+				perProp[v.Property]++
+				rep.Violations = append(rep.Violations, v)
+			} else {
+				rep.Dist["violations_not_listed"]++
+			}
 		}
 	}
 	rep.NonTrivial = len(shapes)
